@@ -72,7 +72,7 @@ def m2(ctx, al, cfg):
                        need_actions=("LdStep", "LdFinish", "PcStep", "PcFinish", "StStep", "StFinish"))
     ctx.add_tlc(r, "Lpc (C11 grid): step-down inverts step-up / Levinson, error product, Schur-Cohn == pole locations")
     nstates = 0
-    diag = {"spec-ParCorError-code-silent": 0, "float-route": 0, "st-float-route": 0}
+    diag = {"spec-ParCorError-code-silent": 0, "float-route": 0, "st-float-route": 0, "unit-k-in-float-arithmetic": 0}
     seen_st = {"stable": 0, "unstable": 0, "nonmonic": 0}
     for st in tlaval.read_dump(dump + ".dump"):
         nstates += 1
@@ -104,7 +104,14 @@ def m2(ctx, al, cfg):
                 # or a zero coefficient read back as the float 0.0 (Poly's absent power), after which values are floats
                 same = all((L.exactly(o) == k) if (exact and not isinstance(o, float)) else L.near(o, k)
                            for o, k in zip(out[:n], kd[:n]))
-                if e == "ParCorError" and (st["err"] != "ParCorError" or len(out) != len(kd)):
+                # |k| = 1 exactly is decidable only while the library computes exactly (no float among the yields)
+                exact_run = exact and not any(isinstance(o, float) for o in out)
+                if not exact_run and st["err"] == "ParCorError":
+                    if not same or len(out) < len(kd):
+                        ctx.violation("C11:parcor-coefficients", info)
+                    else:
+                        diag["unit-k-in-float-arithmetic"] += 1
+                elif e == "ParCorError" and (st["err"] != "ParCorError" or len(out) != len(kd)):
                     ctx.violation("C11:parcor-ParCorError", info)
                 elif e not in ("none", "ParCorError") and not (st["err"] == "ParCorError" and len(out) == len(kd)):
                     ctx.violation("C11:parcor-coefficients", info)     # an exception cut the coefficients short
